@@ -470,7 +470,165 @@ fn nt_c18(_c: &Case, _out: &Outcome, h: &Hist) -> bool {
     h.syncs.iter().any(|s| s.2.is_some()) && h.syncs.len() >= 3
 }
 
+
+// ---------------------------------------------------------------- C11
+use crate::oracle::fault;
+
+/// Fault-free base case: a hierarchy with event/query traffic, scheduling from
+/// driver and models, and a script mixing every kind of run command. The
+/// faults are enumerated by `variants_c11`.
+fn gen_c11(rng: &mut Rng, thorough: bool) -> Case {
+    let bo = BenchOpts {
+        min_nodes: 2,
+        max_nodes: if thorough { 5 } else { 4 },
+        queries: true,
+        submodels: true,
+        caps: vec![1, 2, 4, 16],
+        max_ops: 2,
+        max_volume: 40,
+        max_threads: 4,
+        ..Default::default()
+    };
+    let bench = gen::gen_bench(rng, &bo);
+    let to = TimeOpts { invalid_pct: 6, cancel_pct: 8, periodic_pct: 20, via_action_pct: 25, max_cmds: if thorough { 10 } else { 8 }, ..Default::default() };
+    let mut c = gen::gen_time_on(rng, &to, bench);
+    let n = c.nodes.len();
+    let kinds = c.nodes[0].on.len().max(1) as u64;
+    // Mix in queries and source actions, and make sure follow-up commands exist.
+    for cmd in c.script.iter_mut() {
+        if let Cmd::ProcessEvent { target, kind } = cmd.clone() {
+            let r = rng.below(100);
+            if r < 30 {
+                *cmd = Cmd::ProcessQuery { target, kind };
+            } else if r < 50 && !c.sources.is_empty() {
+                *cmd = Cmd::ProcessSource { src: rng.usize(c.sources.len()) as u16, kind };
+            }
+        }
+    }
+    // Follow-up `step_until` ranges use the time scale of the case (the generator ends every
+    // script with a relative `step_until`).
+    let scale = c.script.iter().rev().find_map(|x| match x { Cmd::StepUntil { when: When::Rel(d) } if *d > 0 => Some(*d), _ => None }).unwrap_or(1);
+    for _ in 0..rng.range(1, 3) {
+        let cmd = match rng.below(6) {
+            0 => Cmd::Step,
+            1 => Cmd::StepUntil { when: When::Rel(scale * rng.range(0, 2)) },
+            2 => Cmd::ProcessEvent { target: rng.usize(n) as u16, kind: rng.below(kinds) as u8 },
+            3 => Cmd::ProcessQuery { target: rng.usize(n) as u16, kind: rng.below(kinds) as u8 },
+            4 if !c.sources.is_empty() => Cmd::ProcessSource { src: rng.usize(c.sources.len()) as u16, kind: rng.below(kinds) as u8 },
+            _ => Cmd::StepUntil { when: When::Past(1 + rng.below(5)) },
+        };
+        c.script.push(cmd);
+    }
+    c.aux.clear();
+    c.script.retain(|x| !matches!(x, Cmd::SpawnAux { .. }));
+    c.profile = "faults:none".into();
+    c
+}
+
+/// Fault enumeration: the base case, then one variant per (fault kind,
+/// injection point) within the bounds below.
+fn variants_c11(c: &Case, thorough: bool) -> Vec<Case> {
+    let mut rng = Rng::new(crate::rng::mix(c.cfg.t0, c.nodes.len() as u64 * 977 + c.script.len() as u64));
+    let n = c.nodes.len();
+    let mut out = vec![c.clone()];
+    // P: model panic at init / invocation 0 / 1 / 2 of up to two (three) nodes.
+    let mut order: Vec<usize> = (0..n).collect();
+    rng.shuffle(&mut order);
+    for &i in order.iter().take(if thorough { 3 } else { 2 }) {
+        for at in [u32::MAX - 1, 0, 1, 2] {
+            let mut x = c.clone();
+            x.nodes[i].panic_at = Some((at, rng.below(3) as u8));
+            x.profile = format!("faults:P node={} at={}", i, at as i64);
+            out.push(x);
+        }
+    }
+    // R: each of up to three mailboxes dropped before init.
+    for &i in order.iter().take(3) {
+        let mut x = c.clone();
+        x.nodes[i].dead = true;
+        x.profile = format!("faults:R node={}", i);
+        out.push(x);
+    }
+    // O: orphan mailboxes.
+    for &i in order.iter().rev().take(2) {
+        let mut x = c.clone();
+        x.nodes[i].registered = false;
+        x.profile = format!("faults:O node={}", i);
+        out.push(x);
+    }
+    // S: a query loop / a saturating event loop.
+    for (j, &i) in order.iter().take(2).enumerate() {
+        let mut x = c.clone();
+        let cid = 20_000 + i as u32;
+        let t = if j == 0 { i } else { rng.usize(n) } as u16;
+        let e = Edge { cid, target: Target::Node(t), map: rng.pct(50), filter: None };
+        let k = rng.usize(x.nodes[i].on.len());
+        let kind = rng.below(x.nodes[i].on.len() as u64) as u8;
+        if j == 0 {
+            x.nodes[i].reqs.push(vec![e]);
+            let port = (x.nodes[i].reqs.len() - 1) as u8;
+            x.nodes[i].on[k].push(Op::Query { port, kind });
+        } else {
+            x.nodes[i].cap = 1;
+            x.nodes[t as usize].cap = 1;
+            x.nodes[i].outs.push(vec![e.clone(), Edge { cid: cid + 500, ..e }]);
+            let port = (x.nodes[i].outs.len() - 1) as u8;
+            x.nodes[i].on[k].push(Op::Send { port, kind });
+            x.nodes[i].on[k].push(Op::Send { port, kind });
+        }
+        x.profile = format!("faults:S node={} target={}", i, t);
+        out.push(x);
+    }
+    // T: the step time-out elapses at the b-th blocking wait.
+    for b in 0..(if thorough { 8 } else { 5 }) {
+        let mut x = c.clone();
+        x.cfg.timeout_set = true;
+        x.cfg.timeout_at_block = Some(b);
+        if b % 2 == 1 {
+            x.cfg.threads = if x.cfg.threads <= 1 { 2 } else { 1 };
+        }
+        x.profile = format!("faults:T block={}", b);
+        out.push(x);
+    }
+    // K: the j-th synchronisation reports a lag above the tolerance.
+    for j in 1..(if thorough { 8 } else { 5 }) {
+        let mut x = c.clone();
+        let lag = 1 + rng.below(1_000_000);
+        x.cfg.clock = (0..=j).map(|q| if q == j { Some(lag) } else if rng.pct(25) { Some(lag / 2) } else { None }).collect();
+        x.cfg.tolerance = Some(lag / 2 + rng.below(lag - lag / 2));
+        x.profile = format!("faults:K sync={}", j);
+        out.push(x);
+    }
+    out
+}
+fn check_c11(case: &Case, out: &Outcome, h: &Hist, _g: &mut Group) -> Vec<Violation> {
+    let mut v = oracle::common(case, out, h);
+    let ag = agenda::build(case, h);
+    v.extend(fault::classification(case, h, &ag));
+    v.extend(fault::terminated_contract(case, h, &ag));
+    v
+}
+fn nt_c11(_c: &Case, _out: &Outcome, h: &Hist) -> bool {
+    // a fatal error was reported and at least one further run attempt followed
+    match h.first_fatal() {
+        Some((idx, _)) => h.cmds.iter().any(|c| c.idx > idx && flow::is_run_cmd(&c.text) && c.end.is_some()),
+        None => false,
+    }
+}
+
 pub static PROPS: &[PropSpec] = &[
+    PropSpec {
+        id: "C11",
+        gen: gen_c11,
+        check: check_c11,
+        nontrivial: nt_c11,
+        variants: variants_c11,
+        schedules_quick: 3,
+        schedules_thorough: 8,
+        cases_quick: 3_000,
+        cases_thorough: 60_000,
+        rule: "a case is a fault-free base (hierarchy, event/query traffic, driver and model scheduling, every kind of run command) plus one variant per (fault kind, injection point): model panic at init/invocation 0-2 of 2-3 models, 3 dropped mailboxes, 2 orphan mailboxes, a query loop, a saturating loop, step time-out at blocking wait 0-4(7), clock lag above tolerance at synchronisation 1-4(7); distinct = distinct (decision sequence, history); non-trivial = a fatal error was reported and at least one further run attempt followed",
+    },
     PropSpec {
         id: "C01",
         gen: gen_c01,
